@@ -6,6 +6,7 @@ package signaling
 
 import (
 	"bufio"
+	"bytes"
 	"encoding/hex"
 	"encoding/json"
 	"fmt"
@@ -13,6 +14,7 @@ import (
 	"log"
 	"net/url"
 	"os"
+	"os/exec"
 	"sort"
 	"strconv"
 	"strings"
@@ -1241,8 +1243,19 @@ func vC10RunCases(t *testing.T, gen func(e *vEnv, r *vRand) []vCase) {
 	if os.Getenv("VERIF_C10_DEBUG") == "" {
 		log.SetOutput(io.Discard)
 	}
+	// Replayed cases (corpus, shrinking, --replay) run in a child process each: a
+	// panic in a server goroutine then becomes the `crash` of that one case instead
+	// of the end of the whole run.
+	isolate := e.replay != "" && os.Getenv("VERIF_C10_CHILD") == ""
 	for i := range cases {
 		c := &cases[i]
+		if isolate {
+			vC10RunIsolated(c)
+			flush(c)
+			data, _ := json.Marshal(c)
+			off += int64(len(data) + 1)
+			continue
+		}
 		x := &vC10Exec{}
 		func() {
 			defer func() {
@@ -1265,6 +1278,44 @@ func vC10RunCases(t *testing.T, gen func(e *vEnv, r *vRand) []vCase) {
 		flush(c)
 		data, _ := json.Marshal(c)
 		off += int64(len(data) + 1)
+	}
+}
+
+// vC10RunIsolated executes one case in a child process (this test binary with a
+// one-case replay file).
+func vC10RunIsolated(c *vCase) {
+	dir, err := os.MkdirTemp("", "vc10")
+	if err != nil {
+		c.Crash = "harness: " + err.Error()
+		return
+	}
+	defer os.RemoveAll(dir)
+	in, out := dir+"/in.jsonl", dir+"/out.jsonl"
+	data, _ := json.Marshal(vCase{Ops: c.Ops})
+	os.WriteFile(in, append(data, '\n'), 0o600) // nolint
+	cmd := exec.Command(os.Args[0], "-test.run", "^TestVerifC10$", "-test.count=1", "-test.timeout=600s")
+	cmd.Env = append(os.Environ(), "VERIF_C10_CHILD=1", "VERIF_REPLAY="+in, "VERIF_OUT="+out)
+	var stderr bytes.Buffer
+	cmd.Stderr = &stderr
+	cmd.Stdout = &stderr
+	runErr := cmd.Run()
+	if res, err := os.ReadFile(out); err == nil {
+		var got vCase
+		for _, line := range strings.Split(string(res), "\n") {
+			if strings.TrimSpace(line) != "" && json.Unmarshal([]byte(line), &got) == nil {
+				c.Impl, c.Crash = got.Impl, got.Crash
+			}
+		}
+	}
+	if runErr != nil && c.Crash == "" {
+		msg := stderr.String()
+		if i := strings.Index(msg, "panic:"); i >= 0 {
+			msg = msg[i:]
+		}
+		if len(msg) > 600 {
+			msg = msg[:600]
+		}
+		c.Crash = "process died while executing op " + strconv.Itoa(len(c.Impl)) + ": " + strings.Join(strings.Fields(msg), " ")
 	}
 }
 
